@@ -62,6 +62,29 @@ def corpus():
                  prog=[['add', 0, 1, {'a': 1}], ['commit']], prog2=[['set', 0, 1, {'a': 2}], ['add', 1, 1, {'a': 0}], ['commit']])]
 
 
+def classify(case, obs):
+    """Open finding: with versioning, attribute assignment on an expired object loads the old value
+    (active_history), which autoflushes pending objects earlier than without versioning; a later
+    session.delete() of an object that is still pending in the unversioned run then fails there only."""
+    if case.get('kind') != 'H' or not case['cfg'].get('autoflush'):
+        return None
+    a, b = obs.get('outcomes') or [], obs.get('plain_outcomes') or []
+    for i, (x, y) in enumerate(zip(a, b)):
+        nx = 'error' if x.startswith('error') else x
+        ny = 'error' if y.startswith('error') else y
+        if nx != ny:
+            ops = [op for op in case['prog']]
+            if x == 'ok' and y == 'error:InvalidRequestError' and i < len(ops) and ops[i][0] == 'del':
+                return 'F-C07-active-history-autoflush'
+            # the same database error surfaces earlier: at the attribute assignment that autoflushes
+            if x.startswith('error') and y == 'ok' and i < len(ops) and ops[i][0] in ('set', 'tagto', 'link', 'unlink'):
+                later = [z for z in b[i + 1:] if z.startswith('error')]
+                if later and later[0] == x:
+                    return 'F-C07-active-history-autoflush'
+            return None
+    return None
+
+
 def _listeners_left(env):
     import sqlalchemy as sa
     m = env.manager
